@@ -145,6 +145,23 @@ def scheduled_one(args):
     return dict(viol=v, incon=None, script=script, args=a[2:], nlines=len(eng.lines))
 
 
+def directed_book_ponder(variant):
+    """OwnBook: a book move found during 'go ponder' must still wait for ponderhit/stop."""
+    v = []
+    eng = uci.Engine(variant, "material_1")
+    eng.send("uci"); eng.send("setoption name OwnBook value true"); eng.send("isready")
+    for pos_cmd, release in (("position startpos", "ponderhit"), ("position startpos moves e2e4", "stop"), ("position startpos moves d2d4 d7d5", "ponderhit")):
+        eng.send(pos_cmd)
+        eng.send("go ponder wtime 60000 btime 60000")
+        time.sleep(0.4)
+        eng.send(release)
+        eng.wait_for(lambda l: l.startswith("bestmove"), 0, 30)
+        time.sleep(0.05)
+    rc = eng.close("quit")
+    v += sessions.judge(eng, rc, "quit")
+    return v, eng.transcript()
+
+
 def run(c):
     quick = c.tier == "quick"
     n_asan = int((160 if quick else 8000) * c.scale)
@@ -176,6 +193,9 @@ def run(c):
         elif f["readyok"] != f["sent"]:
             c.violation("isready-flood", "readyok-count", "sent %d got %d" % (f["sent"], f["readyok"]))
     for variant in ("rel", "asan"):
+        v, tr = directed_book_ponder(variant)
+        for kind, det in v:
+            c.violation("book-move-during-ponder", kind, det, detail=tr)
         v, tr = directed_multipv(variant)
         for kind, det in v:
             c.violation("option-change-during-search", kind, det, detail=tr)
